@@ -3,7 +3,7 @@
    fixes/C23-*.patch; Spec.spec_step is Substrate's AuthoritySet (authorities.rs, fork-tree).
    `prefix` = the pinned code, only used by the ..._prefix_refuted witnesses. *)
 From Coq Require Import NArith List Bool Arith.
-From C23 Require Import Model Spec Enum Proofs Bounded Local Reach Chain Forced OnePerFork.
+From C23 Require Import Model Spec Enum Proofs Bounded Local Reach Chain Forced OnePerFork Forks Forced2.
 Import ListNotations.
 Local Open Scope N_scope.
 
@@ -258,6 +258,68 @@ Proof.
   pose proof (reach_step t [] forced _ _ _ (Import 3) R2 H3) as R3.
   eexists. split; [exact R3|]. vm_compute. reflexivity.
 Qed.
+
+(* --- third round: refinement BY INDUCTION for scheduled changes on ARBITRARY block trees (forks
+   included).  For EVERY well-formed block tree, ANY set of scheduled-change announcements and EVERY
+   history of possible imports and finalisations of ANY length, the repaired Go model and the
+   Substrate specification agree after every event on success/failure and on the three observables
+   the statement names: current set id, authorities of every set id, set id per block number
+   (agree_run3 = agree_run without NextGrandpaAuthorityChange, which has no Substrate counterpart).
+   This generalises C23_refines_chain_scheduled and covers "changes on abandoned forks are
+   discarded": the two sides do NOT keep the same pending tree (gossamer keeps the children of an
+   enacted change that lie on abandoned forks as roots until the next finalisation, Substrate drops
+   them at once); the proof carries the simulation relation
+   s_roots = filter (known to the block state w.r.t. the last finalised block) g_roots. --- *)
+Theorem C23_refines_scheduled_forks : forall t sched evs, wf t = true -> sched_ok sched ->
+  agree_run3 t sched [O] O ginit sinit evs.
+Proof. exact forks_refines. Qed.
+Print Assumptions C23_refines_scheduled_forks.
+
+(* non-vacuity: block 1 announces a change; its two children 2 and 3 fork; blocks 4 (on 2) and 5
+   (on 3) announce changes.  Finalising block 2 enacts the first change and abandons the fork of 3:
+   gossamer keeps BOTH children as roots, Substrate only the one on the finalised fork; the
+   observables agree, and finalising block 4 enacts the second change on both sides. *)
+Example C23_forks_nonvacuous :
+  let t := [O; 1%nat; 1%nat; 2%nat; 3%nat] in
+  let sched := [(1%nat, mkpc 1 0 5 0); (4%nat, mkpc 4 0 6 0); (5%nat, mkpc 5 0 7 0)] in
+  let evs := [Import 1; Import 2; Import 3; Import 4; Import 5; Finalise 2] in
+  wf t = true /\
+  map nblk (g_roots (fst (run_go fixed t sched [] ginit evs))) = [4%nat; 5%nat] /\
+  option_map (fun q => map nblk (s_roots q)) (run_spec t sched [] sinit evs) = Some [4%nat] /\
+  g_setid (fst (run_go fixed t sched [] ginit (evs ++ [Finalise 4]))) = 2 /\
+  g_changes (fst (run_go fixed t sched [] ginit (evs ++ [Finalise 4]))) = [(0, 0); (1, 2); (2, 3)] /\
+  option_map s_changes (run_spec t sched [] sinit (evs ++ [Finalise 4])) = Some [(0, 2); (1, 3)].
+Proof. vm_compute. repeat split; reflexivity. Qed.
+
+(* --- third round: forced changes TOGETHER WITH finalisation, by induction.  For EVERY well-formed
+   block tree, ANY forced-change announcements and EVERY history of possible imports AND
+   finalisations of ANY length, outside the guard of the known finding (agree_run asks for the
+   agreement at an event only when no forced change announced on the finalised chain is pending at
+   a finalisation): ok/error, set id, authorities, set id per block number and next change per
+   live block agree after every event.  Generalises C23_refines_forced_imports.  Simulation
+   relation: g_forced = filter (announced by a descendant of the last finalised block) s_forced -
+   Substrate keeps the forced changes of abandoned forks (its standard-change tree did not
+   change), gossamer prunes them; they can never be enacted or observed. --- *)
+Theorem C23_refines_forced_histories : forall t forced evs, wf t = true -> forced_ok forced ->
+  agree_run t [] forced [O] O ginit sinit evs.
+Proof. exact forced2_refines. Qed.
+Print Assumptions C23_refines_forced_histories.
+
+(* non-vacuity: forced changes on two forks (blocks 4 and 5); finalising block 2 abandons the fork
+   of block 5 (no forced change is pending on the finalised chain: outside the guard); gossamer
+   prunes the change of block 5, Substrate keeps it; importing block 6 enacts the other one *)
+Example C23_forced_histories_nonvacuous :
+  let t := [O; 1%nat; 1%nat; 2%nat; 3%nat; 4%nat] in
+  let forced := [(4%nat, mkpc 4 1 5 0); (5%nat, mkpc 5 1 6 0)] in
+  let evs := [Import 1; Import 2; Import 3; Import 4; Import 5; Finalise 2] in
+  wf t = true /\
+  option_map (fun q => guard_forced_on_finalised t q (Finalise 2))
+             (run_spec t [] forced sinit [Import 1; Import 2; Import 3; Import 4; Import 5]) = Some false /\
+  map pc_blk (g_forced (fst (run_go fixed t [] forced ginit evs))) = [4%nat] /\
+  option_map (fun q => length (s_forced q)) (run_spec t [] forced sinit evs) = Some 2%nat /\
+  g_setid (fst (run_go fixed t [] forced ginit (evs ++ [Import 6]))) = 1 /\
+  option_map s_setid (run_spec t [] forced sinit (evs ++ [Import 6])) = Some 1.
+Proof. vm_compute. repeat split; reflexivity. Qed.
 
 (* --- refinement, exhaustive small scope.  For EVERY well-formed block tree with at most 3
    blocks besides genesis, every assignment of at most 2 change announcements (scheduled or
